@@ -31,7 +31,16 @@ def _myround(number_to_round, decimal_places):
         return number_to_round + abs(number_to_round) / number_to_round * 0.5  # simulate Python 2 rounding
         # via https://stackoverflow.com/questions/21839140/
         # python-3-rounding-behavior-in-python-2
-    rounded_number = round(number_to_round, int(decimal_places))
+    digits = int(decimal_places)
+    if digits < 0:
+        # rounding to more places than the number has digits gives 0; do not let round()
+        # build 10**-digits for an astronomically large -digits written in the wikitext
+        try:
+            magnitude = len(str(abs(int(number_to_round))))
+        except (OverflowError, ValueError):  # inf / nan
+            magnitude = 400
+        digits = max(digits, -(magnitude + 1))
+    rounded_number = round(number_to_round, digits)
     if int(rounded_number) == rounded_number:
         return int(rounded_number)
     return rounded_number
